@@ -299,7 +299,7 @@ pub fn structural(prop: &'static str, cfg: &Config) -> PropRun {
             true,
             "every word of <= N atoms; non-trivial = rollback, virtual token, MacroSep or multi-token emitter present",
         ),
-        "C03" => (vec!["S8", "S4", "S2"], true, "every word of <= N atoms; non-trivial = source is not pure ASCII"),
+        "C03" => (vec!["S8", "S4", "S2", "seeded"], true, "every word of <= N atoms; non-trivial = source is not pure ASCII"),
         "C04" => (vec!["S7", "S2", "S8", "seeded"], true, "every word of <= N atoms; non-trivial = source contains a line feed"),
         "C05" => (
             vec!["S1", "S2", "S4", "S7", "S8", "S9", "seeded"],
